@@ -32,3 +32,80 @@ Proof.
   destruct (Z.ltb_spec (T_CacheEntry_cutUntil g - now)
                        (T_CacheEntry_ttl g - (now - T_CacheEntry_stored g))); lia.
 Qed.
+
+(* ------------------------------------------------------------------ *)
+(** * The request-tree bound: ResponseMeta.BoundCutFor / Cut / CutUntil / BoundCut
+      (middleware/chain.go), translated from the AST (mutex calls are no-ops:
+      the fold is one atomic step under cutMu). *)
+From Sdns Require Import C04.Run.
+
+(* a Go instant as the model's optional deadline: the zero time.Time is "unbounded" *)
+Definition oz_of_go (z : Z) : option Z := if z =? 0 then None else Some z.
+
+(* the model's [bound] IS the generated BoundCutFor, read through CutUntil:
+   zero deadlines are ignored, the first non-zero one is taken, afterwards only
+   an earlier one replaces it -- a min-only fold, whatever the keys are *)
+Lemma gen_bound_cut_for : forall m d k,
+  oz_of_go (go_ResponseMeta_CutUntil (go_ResponseMeta_BoundCutFor m d k))
+  = bound (oz_of_go (go_ResponseMeta_CutUntil m)) (oz_of_go d).
+Proof.
+  intros m d k.
+  unfold go_ResponseMeta_CutUntil, go_ResponseMeta_Cut, go_ResponseMeta_BoundCutFor, oz_of_go, bound. cbn.
+  set (c := T_responseCut_deadline (T_ResponseMeta_cut m)).
+  destruct (Z.eqb_spec d 0) as [Hd|Hd]; cbn; [reflexivity|].
+  destruct (Z.eqb_spec c 0) as [Hc|Hc]; cbn.
+  - destruct (Z.eqb_spec d 0); [contradiction|reflexivity].
+  - destruct (Z.ltb_spec d c); cbn.
+    + destruct (Z.eqb_spec d 0); [contradiction|reflexivity].
+    + fold c. destruct (Z.eqb_spec c 0); [contradiction|reflexivity].
+Qed.
+
+(* the key follows the deadline: the pair is replaced whole exactly when the
+   deadline is, never otherwise (an identified cut does not displace an earlier
+   anonymous bound) *)
+Lemma gen_bound_cut_for_key : forall m d k,
+  let c := fst (go_ResponseMeta_Cut m) in
+  go_ResponseMeta_Cut (go_ResponseMeta_BoundCutFor m d k)
+  = if negb (d =? 0) && ((c =? 0) || (d <? c)) then (d, k) else go_ResponseMeta_Cut m.
+Proof.
+  intros m d k. unfold go_ResponseMeta_Cut, go_ResponseMeta_BoundCutFor. cbn.
+  destruct (Z.eqb_spec d 0); cbn; [reflexivity|].
+  destruct (Z.eqb_spec (T_responseCut_deadline (T_ResponseMeta_cut m)) 0); cbn; [reflexivity|].
+  destruct (Z.ltb_spec d (T_responseCut_deadline (T_ResponseMeta_cut m))); reflexivity.
+Qed.
+
+(* min-only: a bound once set never moves later and never disappears *)
+Lemma gen_bound_cut_min_only : forall m d k,
+  let c := go_ResponseMeta_CutUntil m in
+  let c' := go_ResponseMeta_CutUntil (go_ResponseMeta_BoundCutFor m d k) in
+  c <> 0 -> c' <> 0 /\ c' <= c /\ (d <> 0 -> c' <= d).
+Proof.
+  intros m d k. unfold go_ResponseMeta_CutUntil. rewrite gen_bound_cut_for_key.
+  unfold go_ResponseMeta_Cut. cbn. intros Hc.
+  destruct (Z.eqb_spec d 0); cbn; [lia|].
+  destruct (Z.eqb_spec (T_responseCut_deadline (T_ResponseMeta_cut m)) 0); cbn; [contradiction|].
+  destruct (Z.ltb_spec d (T_responseCut_deadline (T_ResponseMeta_cut m))); cbn; lia.
+Qed.
+
+Lemma gen_bound_cut : forall m d, go_ResponseMeta_BoundCut m d = go_ResponseMeta_BoundCutFor m d 0%N.
+Proof. reflexivity. Qed.
+
+(* any sequence of folds of the code is the model's fold_bounds *)
+Lemma gen_bound_cut_fold : forall (l : list (Z * N)) m,
+  oz_of_go (go_ResponseMeta_CutUntil
+              (fold_left (fun m dk => go_ResponseMeta_BoundCutFor m (fst dk) (snd dk)) l m))
+  = fold_bounds (oz_of_go (go_ResponseMeta_CutUntil m)) (map (fun dk => oz_of_go (fst dk)) l).
+Proof.
+  induction l as [|[d k] l IH]; intros m; [reflexivity|].
+  simpl fold_left. simpl map. rewrite IH. unfold fold_bounds. simpl fold_left.
+  rewrite gen_bound_cut_for. reflexivity.
+Qed.
+
+(* non-trivial instance: an anonymous early bound (a cache hit, key 0) followed by
+   a later keyed delegation lease keeps the early deadline and its key *)
+Example bound_cut_keeps_anonymous_early_bound :
+  let m0 := mk_T_ResponseMeta (mk_T_responseCut 0 0%N) (mk_T_RecursionWorkPolicy 0 0 0 0 0 0 0 0 0)%N in
+  let m1 := go_ResponseMeta_BoundCutFor m0 6500 0%N in
+  let m2 := go_ResponseMeta_BoundCutFor m1 60000 102%N in
+  go_ResponseMeta_Cut m2 = (6500, 0%N).
+Proof. reflexivity. Qed.
